@@ -28,7 +28,7 @@ for p in props:
                 'is replayed concretely on the real code before it is reported'),
             'technique': getattr(m, 'TECHNIQUE',
                 'symbolic execution of the real edzed functions on z3-backed proxy values (symx); '
-                'property negation discharged by z3 per path region; counterexamples replayed concretely'),
+                'property negation discharged by z3 per path region (a sample of the unsat verdicts re-decided by cvc5 and z3 4.8); counterexamples replayed concretely'),
         })
     else:
         not_applicable.append({'property_id': pid, 'reason': na.get(pid, 'check not built yet (work in progress)')})
@@ -52,7 +52,10 @@ man = {
     'checks': checks,
     'not_applicable': not_applicable,
     'notes': 'See DESIGN.md. Exit codes of every check: 0 held, 1 replay-confirmed violation, 2 inconclusive '
-             '(never reported as success). known_findings.json lists fixed/known findings.',
+             '(never reported as success). known_findings.json lists fixed/known findings: F1-F25 and F27 were repaired in /repo '
+             '("fix:" commits), F26 (C12: OutputAsync clean-up exceeds stop_timeout in wait mode / start mode with stop_data) '
+             'is a known finding: the C12 check prints one KNOWN-FINDING line for it and exits 0. A sample of the unsat '
+             'verdicts of every shard is re-decided by the cvc5 and z3 4.8 binaries (evidence.coverage.solver_crosscheck).',
 }
 json.dump(man, open(os.path.join(ROOT, 'MANIFEST.json'), 'w'), indent=1)
 print('checks:', [c['property_id'] for c in checks]); print('n/a:', [n['property_id'] for n in not_applicable])
